@@ -157,39 +157,51 @@ class Report:
     RESTRUCTURED_REL = (6, 0.5)
 
     def _shape_rule_scope(self):
-        """Failures of shape rules located in functions that were restructured since the baseline (or are new) say
-        'the shape I know is gone', not 'the property is violated': they become undecided."""
+        """Shape rules (rep.pin, and rep.ob outside the robust set) were confirmed against the baseline text of the code
+        they read; every one of them passes on that text.  A failure of such a rule therefore means "something I read
+        has changed shape" -- in the function the obligation points at or in another one it consulted -- which is not
+        evidence that the property is violated.  As soon as any function of the package differs from the baseline
+        (statement fingerprints, optyx_sa/baseline_stmts.json) the failures of shape rules become "not decided".  Only
+        obligations marked robust (a branch that positively identified a wrong construct) can accuse.
+        OPTYX_LENIENT_SHAPE=1 restores the old size thresholds per function, for experiments."""
         if not self.edits:
+            return
+        changed = {q: (chg, tot, span) for q, (chg, tot, span) in self.edits.items() if chg is None or chg > 0}
+        if not changed:
             return
         spans = {}
         for q, (chg, tot, span) in self.edits.items():
             spans.setdefault(span[0], []).append((span[1], span[2], q, chg, tot))
         known_keys = {(k["rule"], k["construct"], k.get("detail", "")) for k in self._known()[0] if k.get("property") == self.prop}
+        lenient = bool(os.environ.get("OPTYX_LENIENT_SHAPE"))
         for o in self.obs:
-            if o.ok or o.robust or not o.loc or ":" not in o.loc:
+            if o.ok or o.robust:
                 continue
             if o.key() in known_keys:
                 continue            # a listed finding stays a listed finding wherever the function's text moved
-            rel, _, ln = o.loc.rpartition(":")
-            if not ln.isdigit():
-                continue
-            ln = int(ln)
-            hit = [(a, b, q, chg, tot) for a, b, q, chg, tot in spans.get(rel, []) if a <= ln <= b]
-            if not hit:
-                continue
-            a, b, q, chg, tot = hit[0]
-            big = chg is None or chg > self.RESTRUCTURED_ABS or (chg > self.RESTRUCTURED_REL[0] and tot and chg / tot > self.RESTRUCTURED_REL[1])
-            # shape rules were confirmed against the baseline text of the function: once that text has changed at all, a
-            # mismatch says "the shape I know is gone", which is not evidence of a violation (OPTYX_LENIENT_SHAPE=1
-            # restores the earlier threshold policy for experiments)
-            if not os.environ.get("OPTYX_LENIENT_SHAPE") and (chg is None or chg > 0):
-                big = True
-            if big:
-                what = "is new" if chg is None else f"was edited ({chg} of {tot} statements changed since the confirmed baseline)"
-                self.undecided(f"{o.rule} {o.construct} [{o.detail}]: shape rule does not match, but {q.split(':')[1]} {what}: not decided ({o.msg[:90]})")
-                o.ok = True
-                o.trivial = True
-                o.msg = "(shape rule in a restructured function: not decided) " + o.msg
+            where = None
+            if o.loc and ":" in o.loc:
+                rel, _, ln = o.loc.rpartition(":")
+                if ln.isdigit():
+                    hit = [(q, chg, tot) for a, b, q, chg, tot in spans.get(rel, []) if a <= int(ln) <= b]
+                    if hit:
+                        where = hit[0]
+            if lenient:
+                if where is None:
+                    continue
+                q, chg, tot = where
+                if not (chg is None or chg > self.RESTRUCTURED_ABS or (chg > self.RESTRUCTURED_REL[0] and tot and chg / tot > self.RESTRUCTURED_REL[1])):
+                    continue
+            if where is not None and (where[1] is None or where[1] > 0):
+                q, chg, tot = where
+                what = f"{q.split(':')[1]} is new" if chg is None else f"{q.split(':')[1]} was edited ({chg} of {tot} statements changed since the confirmed baseline)"
+            else:
+                q0 = sorted(changed)[0]
+                what = f"code it reads was edited elsewhere ({len(changed)} function(s) differ from the confirmed baseline, e.g. {q0.split(':')[1]})"
+            self.undecided(f"{o.rule} {o.construct} [{o.detail}]: shape rule does not match, but {what}: not decided ({o.msg[:90]})")
+            o.ok = True
+            o.trivial = True
+            o.msg = "(shape rule on edited code: not decided) " + o.msg
 
     def pin(self, group, rule, construct, ok, msg, loc=None, detail="", trivial=False, extra=None):
         """An obligation decided by matching today's statement shapes (a *pinned idiom*).  Pins are grouped (usually
